@@ -25,6 +25,25 @@ def pred(name):
     return deco
 
 
+def _above_maxint64(c):
+    return c[0] == 0 and c[1] >= 128
+
+
+@pred("ubjson.ext.uint-seq-mixing-highprec-and-small")
+def _ubj_h_mix(tr):
+    """UBJSON encoder, OnUint64Array/OnUintArray/OnUint64Object/OnUintObject whose
+    elements include a value above MaxInt64 (forcing element type H) AND a value
+    that fits int64 (which is then written, and read back, as a decimal string)."""
+    if tr.get("fmt") != "ubjson" and tr.get("tgt") != "ubjson":
+        return False
+    for e in tr.get("stream") or []:
+        if e["k"] in ("xarr", "xobj") and e["ty"] in ("uint64", "uint"):
+            vs = [x["v"] for x in e["e"]]
+            if any(_above_maxint64(v) for v in vs) and any(not _above_maxint64(v) for v in vs):
+                return True
+    return False
+
+
 def load():
     p = os.path.join(VERIF, "known_findings.json")
     if not os.path.exists(p):
